@@ -1581,7 +1581,7 @@ impl<'a> CompilerState<'a> {
                                                         for c in vb.iter() {
                                                             arr.push(VariableValue::Int(*c as i32));
                                                         }
-                                                        let size = v.len();
+                                                        let size = arr.len();
                                                         self.variables.insert(
                                                             name.clone(),
                                                             Variable {
